@@ -26,7 +26,7 @@ from harness import cachework as cw
 from harness import data, tlc
 from harness.yawenv import scratch
 
-BIN = '{"N", "A", "A2", "B", "C", "A3", "D"}'
+BIN = '{"N", "A", "A2", "B", "C", "A3", "D", "E"}'
 
 
 def consts(dev="{}", maxb=4):
@@ -187,7 +187,7 @@ def run(ctx) -> None:
         hist.append([("use", a, False), ("pbuild", b, rng.random() < 0.3), ("use", b, False)])
     # histories of measurements whose configurations share the binning (same trees) but differ in scales or only in
     # the parameters of a custom cosmology: nothing kept in memory from the earlier measurement may leak into the later
-    for a, b in (("A", "A3"), ("A3", "A"), ("A", "D"), ("D", "A"), ("B", "D")):
+    for a, b in (("A", "A3"), ("A3", "A"), ("A", "D"), ("D", "A"), ("B", "D"), ("A", "E"), ("N", "E"), ("E", "A")):
         for f in (False, True):
             hist.append([("build", a, f), ("use", b, False)])
         hist.append([("use", a, False), ("use", b, False), ("use", a, False)])
@@ -202,7 +202,7 @@ def run(ctx) -> None:
     for _ in range(6 if quick else 40):
         vh.append([("use", rng.choice(vnames + names), False) for _ in range(rng.choice([3, 4]))])
     hist += vh
-    keep = 45 + len(vh) + 15 + (20 if quick else 120)
+    keep = 45 + len(vh) + 24 + (20 if quick else 120)
     if quick and len(hist) > 115 + keep:
         head = hist[-keep:]
         hist = rng.sample(hist[:-keep], 115) + head
